@@ -53,7 +53,7 @@ class Config(dict):
         raise HarnessError("unknown instr " + i)
 
     def cflags(self):
-        f = [self["opt"], "-g1", "-std=gnu11", "-fno-strict-aliasing", "-Wno-error", "-w"]
+        f = [self["opt"], "-g1", "-std=gnu11", "-fno-strict-aliasing", "-Wno-error", "-w", "-Werror=implicit-function-declaration"]
         if self["simd"] == "native":
             f += NATIVE_SIMD.split()
         if self["openmp"]:
